@@ -357,12 +357,65 @@ if __name__ == "__main__":
 }
 
 
+# names that mean one thing in the main file and another in a library: a device object / alias / constant /
+# function of the main file whose name is also an ordinary global (or local, parameter) of a library that
+# declares no object of that kind itself
+FIXED_SHADOWED_NAMES = {
+    "": HDR + """
+from library import a, b
+
+sensor = DaylightSensor(d0)
+lamp = GrowLight(d1, alias="LAMP")
+LIMIT = 5
+level = d2.Setting
+
+def scale(v):
+    return v * 3
+
+a.feed(sensor.SolarAngle)
+a.feed(scale(level))
+b.tick(LIMIT)
+b.tick(level)
+lamp.On = a.total()
+db.Setting = sensor.Vertical + b.report(2)
+""",
+    "a": HDR + """
+sensor = 1
+level = 0
+
+def feed(v):
+    global sensor, level
+    level = level + v
+    sensor = sensor + level
+    d3.Setting = sensor
+
+def total():
+    return sensor + level
+""",
+    "b": HDR + """
+lamp = d4.Setting
+LIMIT = 40
+
+def scale(v):
+    return v + lamp
+
+def tick(v):
+    global lamp
+    lamp = scale(v) + LIMIT
+    d5.Setting = lamp
+
+def report(level):
+    return lamp * level + LIMIT
+""",
+}
+
+
 def run(tier: str) -> int:
     rep = harness.Report(PROP, tier, "translation_validation")
     rep.assumptions = ASSUMPTIONS
     known = harness.known_for(PROP)
     n = 150 if tier == "thorough" else 20
-    progs = [("fixed:two_libs", FIXED_MULTI, []), ("fixed:dead_constants", FIXED_DEAD_CONST, []), ("fixed:import_order", FIXED_IMPORT_ORDER, []), ("fixed:suffix_names_in_library", FIXED_SUFFIX_LIB, []), ("fixed:guard_else", FIXED_GUARD_ELSE, []), ("fixed:multi_name_import", FIXED_MULTI_NAME_IMPORT, [])]
+    progs = [("fixed:two_libs", FIXED_MULTI, []), ("fixed:dead_constants", FIXED_DEAD_CONST, []), ("fixed:import_order", FIXED_IMPORT_ORDER, []), ("fixed:suffix_names_in_library", FIXED_SUFFIX_LIB, []), ("fixed:guard_else", FIXED_GUARD_ELSE, []), ("fixed:multi_name_import", FIXED_MULTI_NAME_IMPORT, []), ("fixed:shadowed_names", FIXED_SHADOWED_NAMES, [])]
     for i in range(n):
         seed = harness.seed() * 9973 + i + 1
         srcs, feats = gen_multi(seed)
